@@ -1,18 +1,23 @@
 /- Model driver: one request per line on stdin, one answer per line on stdout.
    `M <cmd> <args>`          → the model's answer (same format as the C++ harness)
-   `S <cmd> <args> ## <impl>` → the spec oracle's verdict on the implementation's answer -/
+   `S <cmd> <args> ## <impl>` → the spec oracle's verdict on the implementation's answer
+   Each property contributes `handlers` in its own Driver/<Area>.lean; add one import and
+   one `++` line here. -/
 import Driver.Riff
 open Driver
 
+def allHandlers : List Handler :=
+  RiffD.handlers
+
 def answerModel (cmd arg : String) : String :=
-  match cmd with
-  | "riff" => RiffD.model arg
-  | _ => "bad-request"
+  match allHandlers.find? (·.cmd == cmd) with
+  | some h => h.model arg
+  | none => "bad-request"
 
 def answerJudge (cmd arg impl : String) : String :=
-  match cmd with
-  | "riff" => RiffD.judge arg impl
-  | _ => "skip"
+  match allHandlers.find? (·.cmd == cmd) with
+  | some h => h.judge arg impl
+  | none => "skip"
 
 def splitCmd (s : String) : String × String :=
   match s.splitOn " " with
